@@ -26,6 +26,10 @@ type RxTable struct {
 	byGlobal map[*ssa.Global]*Pattern
 	ambig    map[*ssa.Global]string
 	all      []*Pattern
+	// patterns kept in a struct field that is assigned exactly once in the repository
+	// (compiled in a constructor): keyed by "pkg.Type.field"
+	byField    map[string]*Pattern
+	fieldAmbig map[string]string
 }
 
 func isRegexpPtr(v ssa.Value) bool {
@@ -129,8 +133,83 @@ func (c *Ctx) Rx() *RxTable {
 			}
 		})
 	}
+	// pattern fields
+	t.byField = map[string]*Pattern{}
+	t.fieldAmbig = map[string]string{}
+	for _, fn := range c.P.RepoFns {
+		allInstrs(fn, func(in ssa.Instruction) {
+			st, ok := in.(*ssa.Store)
+			if !ok {
+				return
+			}
+			fa, ok := st.Addr.(*ssa.FieldAddr)
+			if !ok || !isNamed(derefType(fa.Type()), "regexp", "Regexp") {
+				return
+			}
+			key := fieldKey(fa)
+			if key == "" {
+				return
+			}
+			src, isConst := mustCompileConst(st.Val)
+			if !isConst {
+				t.fieldAmbig[key] = "assigned a value that is not a compiled constant in " + load.FnName(fn)
+				return
+			}
+			if old, dup := t.byField[key]; dup && old.Src != src {
+				t.fieldAmbig[key] = "assigned different patterns"
+				return
+			}
+			re, err := rx.Parse(src)
+			if err != nil {
+				t.fieldAmbig[key] = "does not parse: " + err.Error()
+				return
+			}
+			t.byField[key] = &Pattern{Name: key, Src: src, Re: re, Pos: c.P.InstrPos(st)}
+		})
+	}
+	for k := range t.fieldAmbig {
+		delete(t.byField, k)
+	}
 	c.rxTable = t
 	return t
+}
+
+// patternCell: the memory cell behind a local variable: the Alloc itself, or for a variable captured
+// by a closure the Alloc that the enclosing function bound to it.
+func patternCell(addr ssa.Value) *ssa.Alloc {
+	switch a := addr.(type) {
+	case *ssa.Alloc:
+		return a
+	case *ssa.FreeVar:
+		fn := a.Parent()
+		parent := fn.Parent()
+		if parent == nil {
+			return nil
+		}
+		idx := -1
+		for i, fv := range fn.FreeVars {
+			if fv == a {
+				idx = i
+			}
+		}
+		var out *ssa.Alloc
+		allInstrs(parent, func(in ssa.Instruction) {
+			if mc, ok := in.(*ssa.MakeClosure); ok && mc.Fn == ssa.Value(fn) && idx >= 0 && idx < len(mc.Bindings) {
+				out = patternCell(mc.Bindings[idx])
+			}
+		})
+		return out
+	}
+	return nil
+}
+
+// fieldKey names a struct field: "pkg.Type.field" ("" for anonymous structs).
+func fieldKey(fa *ssa.FieldAddr) string {
+	pk, name := namedOf(derefType(fa.X.Type()))
+	if name == "" {
+		return ""
+	}
+	return load.ShortPkg(pk) + "." + name + "." + fieldName(fa)
 }
 
 // Resolve maps a *regexp.Regexp SSA value to its source pattern.
@@ -145,6 +224,31 @@ func (t *RxTable) Resolve(v ssa.Value) (*Pattern, string) {
 				return nil, "pattern variable " + g.Name() + " " + why
 			}
 			return nil, "pattern variable " + g.Name() + " has no constant initialiser"
+		}
+		// a local pattern kept in memory because a closure captures it: one store, a compiled constant
+		if cell := patternCell(x.X); cell != nil {
+			var stored []ssa.Value
+			for _, r := range referrers(cell) {
+				if st, ok := r.(*ssa.Store); ok && st.Addr == ssa.Value(cell) {
+					stored = append(stored, st.Val)
+				}
+			}
+			if len(stored) == 1 {
+				if _, isLoad := stored[0].(*ssa.UnOp); !isLoad {
+					return t.Resolve(stored[0])
+				}
+			}
+			return nil, "pattern variable is assigned more than once"
+		}
+		if fa, ok := x.X.(*ssa.FieldAddr); ok {
+			key := fieldKey(fa)
+			if p, ok := t.byField[key]; ok {
+				return p, ""
+			}
+			if why, ok := t.fieldAmbig[key]; ok {
+				return nil, "pattern field " + key + " is " + why
+			}
+			return nil, "pattern field " + key + " is never assigned a compiled constant"
 		}
 	case *ssa.Call, *ssa.Extract:
 		if src, ok := mustCompileConst(v); ok {
